@@ -54,9 +54,13 @@ pub fn generate(s: &mut Session, tier: &str, rng: &mut Rng) {
                     endings.push("close=app cut=0".into());
                     endings.push("close=app cut=K".into());
                 }
+                // an upload far larger than what the server can have consumed when the application closes right behind it
+                endings.push("close=app-early big".into());
                 for e in endings {
                     let kind = *rng.pick(&KINDS);
-                    let up = sizes(rng, max_total);
+                    let big = e.ends_with(" big");
+                    let e = e.trim_end_matches(" big").to_owned();
+                    let up = if big { format!("{}", 150_000 + rng.below(400_000)) } else { sizes(rng, max_total) };
                     let pieces = up.split(',').count();
                     let e = e.replace("cut=K", &format!("cut={}", 1 + rng.below(pieces as u64)));
                     let host = if e.contains("unresolvable") { "localhost" } else { "127.0.0.1" };
